@@ -10,10 +10,17 @@ NOT_APPLICABLE = {
 }
 
 PLAN = {
+    "C17": dict(
+        verus=[], kani=["ports", "dc"], level="proof",
+        claim="4-port functions of Ports proved against closed-form specs for all activity patterns and times (Kani, complete)",
+        note="tree-level functions bounded in the number of devices",
+    ),
     "C11": dict(
-        verus=[], kani=["wkc"], level="proof",
-        claim="ReceivedPdu::wkc/maybe_wkc proved for every counter/expected value (Kani, loop-free, complete)",
-        note="wrapped command methods not yet under contract",
+        verus=["wrapped"], kani=["wkc"], level="proof",
+        claim="ReceivedPdu::wkc/maybe_wkc proved for every counter/expected value (Kani, loop-free, complete); WrappedRead/WrappedWrite "
+              "constructors and receive/receive_slice/receive_wkc/send_receive/send_receive_slice proved against an arbitrary network answer (Verus): "
+              "Ok(_) implies the counter was accepted by the configured expectation",
+        note="network (MainDevice::single_pdu) abstracted as an arbitrary datagram; callers of the wrapped methods not yet under contract",
     ),
     "C12": dict(
         verus=["eeprom_range", "subdevice_eeprom"], kani=[], level="proof",
